@@ -211,12 +211,29 @@ pub fn run(tier: &str, seed: u64) -> i32 {
             },
         );
     }
+    // nested blocks on one holder, over arrays of objects whose elements satisfy different blocks
+    for (stream, neg) in [(15u64, false), (16u64, true)] {
+        gen::drive(
+            &mut report,
+            stream,
+            n / 12,
+            || (gen::rule_nested_focus(neg), prop::collection::vec((any::<u16>(), any::<u8>()), 24)),
+            |(rule, picks): &(RuleSpec, Vec<(u16, u8)>)| {
+                if !rule.well_formed() {
+                    return vec![];
+                }
+                vec![make_case(rule, gen::nested_docs(rule, picks))]
+            },
+            judge,
+            |_, rep| rep.label("same_holder_nested_rule"),
+        );
+    }
     // wide or-groups (matrix guard at 256 entries, column keys beyond ASCII)
     gen::drive(
         &mut report,
         14,
         if tier == "thorough" { 600 } else { 80 },
-        || (gen::rule_wide(), prop::collection::vec(any::<u16>(), 10)),
+        || (gen::rule_wide(), prop::collection::vec(any::<u16>(), 24)),
         |(rule, picks): &(RuleSpec, Vec<u16>)| vec![make_case(rule, gen::wide_docs(rule, picks))],
         judge,
         |_, rep| rep.label("wide_or_group_rule"),
